@@ -151,7 +151,8 @@ pub fn main(args: &Args) -> i32 {
             let kind = if bks[si % bks.len()] == "sql" { BackendKind::Sql } else { BackendKind::Mem };
             let ls: Vec<&str> = lists.split(',').collect();
             let list_kind = ls[(si / bks.len()) % ls.len()];
-            let clients: Vec<Uuid> = (0..4).map(|_| r.uuid()).collect();
+            // four clients with a history from phase 1, and a fifth the server has never seen (a refused request under its id must not create it)
+            let clients: Vec<Uuid> = (0..5).map(|_| r.uuid()).collect();
             let allow: Option<Vec<Uuid>> = match list_kind {
                 "none" => None,
                 "empty" => Some(vec![]),
